@@ -137,6 +137,21 @@ def check(rep, tier, seed):
         if a.startswith("entry-points-differ") and bad is None:
             bad = (l, a)
     rep.coverage["entry_point_history_cases"] = len(elines)
+    # derived and evolved records (chunk buffers, headers with sizes of every var-int width): the bytes on Vec<u8> and
+    # BytesMut, the size calculator's count, and the same three under a caller-pushed buffer (a user-defined
+    # length-prefixed frame built on push_buffer / pop_buffer) must agree
+    dcases = R.derived_cases(erng, tier)[: (2500 if tier == "quick" else 10 ** 9)]
+    big = "b" + "61" * 300
+    for c in dcases:
+        c["cmd"] = "enc"
+    dimpl, _dm = C.run_codec(harness, model, dcases, wd, "derived")
+    ndiff = 0
+    for c, a in zip(dcases, dimpl):
+        if a.startswith("entry-points-differ"):
+            ndiff += 1
+            if bad is None:
+                bad = (C.codec_line(c), a)
+    rep.coverage["derived_values_on_all_outputs"] = {"cases": len(dcases), "disagreeing": ndiff}
     C.proof_coverage(rep, ob, "C15")
     rep.coverage.update({
         "evaluations": 3 * len(lines), "distinct_nontrivial": len(set(lines)),
